@@ -438,3 +438,131 @@ def rule_set_order(ctx, entry_qnames: List[str]):
     ctx.require(len(hits) == 1, rule, "self-test", f"the positive example must be reported exactly once (got {len(hits)})")
     ctx.ok(rule, f"{scanned} functions reachable from {len(entry_qnames)} read-only entry points scanned, {sets} set constructions "
                  f"classified, positive example reported")
+
+
+# ------------------------------------------------------------ FIELD-owner
+# who-may-write: the navigation fields of a Segment (`to`, `await_to`, ...) describe the part; the Segment objects are shared by the
+# part's time line and by every Path of a search.  Outside Segment's own methods they may be written only on a provably fresh copy.
+
+_FRESH_MAKERS = {"copy", "deepcopy", "copy.copy", "copy.deepcopy"}
+_LIST_MUTATORS = {"append", "extend", "insert", "remove", "pop", "clear", "sort", "reverse"}
+
+
+def exclusive_fields(prog, cls_qname: str) -> set:
+    ci = prog.classes.get(cls_qname)
+    if ci is None:
+        return set()
+    own_fields = set()
+    init = ci.methods.get("__init__")
+    if init is not None:
+        for n in own_nodes(init.node):
+            if isinstance(n, ast.Attribute) and isinstance(n.ctx, ast.Store) and isinstance(n.value, ast.Name) and n.value.id == "self":
+                own_fields.add(n.attr)
+    family = {c.qname for c in (ci.mro or [ci])} | {c.qname for c in ci.subclasses}
+    others = set()
+    for c in prog.classes.values():
+        if c.qname in family:
+            continue
+        others |= _self_attrs_of_class(c)
+    return own_fields - others
+
+
+def foreign_field_writes(ctx_prog, inf, f: FuncInfo, fields: set, cls_name: str):
+    """[(node, field, why)] stores / in-place list mutations of `<X>.<field>` in f where X is not provably a fresh copy."""
+    from ..core.cfg import stores_of
+    out = []
+    sites = []
+    for n in own_nodes(f.node):
+        if isinstance(n, ast.Attribute) and n.attr in fields:
+            par = getattr(n, "_parent", None)
+            if isinstance(n.ctx, (ast.Store, ast.Del)):
+                sites.append((n, n.value, "store"))
+            elif isinstance(par, ast.Attribute) and par.value is n and par.attr in _LIST_MUTATORS and isinstance(getattr(par, "_parent", None), ast.Call) \
+                    and getattr(par, "_parent").func is par:
+                sites.append((n, n.value, f".{par.attr}()"))
+            elif isinstance(par, ast.Subscript) and par.value is n and isinstance(par.ctx, (ast.Store, ast.Del)):
+                sites.append((n, n.value, "item store"))
+            elif isinstance(par, ast.AugAssign) and par.target is n:
+                sites.append((n, n.value, "augmented assignment"))
+    if not sites:
+        return out
+    cfg = inf.cfg(f)
+    for n, obj, how in sites:
+        if isinstance(obj, ast.Name) and obj.id == "self" and f.cls is not None and f.name == "__init__":
+            continue
+        if not isinstance(obj, ast.Name):
+            out.append((n, n.attr, f"{how} through `{norm(obj)[:40]}` (not a local copy)"))
+            continue
+        # statement holding the site
+        st = n
+        while getattr(st, "_parent", None) is not None and cfg.node_of(st) is None:
+            st = st._parent
+        target = cfg.node_of(st)
+        if target is None:
+            out.append((n, n.attr, f"{how}: statement not in the flow graph"))
+            continue
+        fresh_nodes, other_nodes = set(), set()
+        for node in cfg.nodes:
+            if obj.id in stores_of(node):
+                a = node.ast
+                fresh = False
+                if node.kind == "stmt" and isinstance(a, ast.Assign) and len(a.targets) == 1 and isinstance(a.targets[0], ast.Name) \
+                        and isinstance(a.value, ast.Call):
+                    fn = norm(a.value.func)
+                    fresh = fn in _FRESH_MAKERS or fn == cls_name
+                (fresh_nodes if fresh else other_nodes).add(node)
+        starts = set(other_nodes)
+        if obj.id in f.all_params or not (fresh_nodes or other_nodes):
+            starts.add(cfg.entry)
+        bad = [s for s in starts if s is target or cfg.paths_avoiding(s, fresh_nodes, {target})]
+        if bad:
+            out.append((n, n.attr, f"{how} on `{obj.id}`, which can still be the shared object here (bound at line "
+                                   f"{min((getattr(b.ast, 'lineno', 0) or 0) for b in bad)})"))
+    return out
+
+
+_FIELD_OWNER_SELFTEST = '''
+def _probe_rewrite(path_segments):
+    for segid in path_segments.keys():
+        seg = path_segments[segid]
+        seg.to = [idx for idx in seg.to if idx <= seg.id]
+
+def _probe_copy_first(path_segments):
+    for segid in path_segments.keys():
+        seg = path_segments[segid]
+        seg = copy(seg)
+        seg.to = [idx for idx in seg.to if idx <= seg.id]
+        path_segments[segid] = seg
+'''
+
+
+def rule_field_owner(ctx, cls_qname="partitura.score:Segment", floor=2):
+    rule = "FIELD-owner"
+    cname = cls_qname.split(":")[1]
+    ctx.rule(rule, f"the fields only {cname} has (assigned in its constructor, in no other class) describe the part and are shared by "
+                   f"the part's time line and every Path of a search: outside {cname}.__init__ they are written (attribute store, "
+                   f"item store, in-place list method) only on a local that on every path was last bound to copy()/deepcopy()/{cname}(...)")
+    fields = exclusive_fields(ctx.prog, cls_qname)
+    ctx.floor(rule, f"fields exclusive to {cname}", len(fields), floor)
+    w = world(ctx)
+    scanned = 0
+    for f in ctx.prog.functions.values():
+        scanned += 1
+        for n, field, why in foreign_field_writes(ctx.prog, w.inf, f, fields, cname):
+            ctx.touch(f)
+            ctx.check(False, rule, f"{f.qname}:{field}", func=f, node=n, construct=f"foreign-write:{cname}.{field}",
+                      msg=f"{_short(f.qname)} writes `{cname}.{field}` — {why}: the {cname} objects are the part's own (and shared by "
+                          f"all paths of the search), so a later unfolding of the same part sees the rewritten value")
+    # positive / negative example on every run (expected count on the tree is zero)
+    import os
+    from ..core.program import Program
+    from ..core.types import Infer
+    rel = os.path.join("partitura", "utils", "generic.py")
+    with open(os.path.join(ctx.prog.repo, rel), encoding="utf-8") as fh:
+        base = ctx.prog.overrides.get(rel) or fh.read()
+    probe = Program(repo=ctx.prog.repo, overrides={rel: base + "\n" + _FIELD_OWNER_SELFTEST})
+    pinf = Infer(probe)
+    pos = foreign_field_writes(probe, pinf, probe.functions["partitura.utils.generic:_probe_rewrite"], fields, cname)
+    neg = foreign_field_writes(probe, pinf, probe.functions["partitura.utils.generic:_probe_copy_first"], fields, cname)
+    ctx.require(len(pos) == 1 and not neg, rule, "self-test", f"positive example reported {len(pos)} time(s), copy-first twin {len(neg)}")
+    ctx.ok(rule, f"{scanned} functions scanned for writes to {sorted(fields)}; positive example reported, copy-first twin silent")
